@@ -17,8 +17,15 @@ fn noop_raw() -> RawWaker {
     RawWaker::new(std::ptr::null(), &VT)
 }
 
+/// One-shot environment action run at the next await point (before the awaited operation is polled): lets a
+/// harness model "something else happens while this task is suspended here" (a producer pushes, a source is
+/// dropped, a key is installed) in an otherwise sequential execution.
+pub static mut AWAIT_HOOK: Option<fn()> = None;
+pub fn set_await_hook(h: fn()) { unsafe { *core::ptr::addr_of_mut!(AWAIT_HOOK) = Some(h); } }
+
 /// Poll once from a stack pin. Pending: the path is cut (Kani) / the replay aborts (native).
 pub fn once<F: Future>(f: F) -> F::Output {
+    unsafe { if let Some(h) = (*core::ptr::addr_of_mut!(AWAIT_HOOK)).take() { h(); } }
     let mut f = ManuallyDrop::new(f);
     let mut f = unsafe { Pin::new_unchecked(&mut *f) };
     let w = ManuallyDrop::new(unsafe { Waker::from_raw(noop_raw()) });
